@@ -646,6 +646,9 @@ class BaseRequest(MutableMapping[str | RequestKey[Any], Any], HeadersMixin):
 
             if start is None and end is not None:
                 # end with no start is to return tail of content
+                if end == 0:
+                    # -0 would be slice(0, None): everything instead of nothing
+                    raise ValueError("suffix length cannot be zero")
                 start = -end
                 end = None
 
